@@ -359,7 +359,7 @@ func lemmaBooleanRoundTrip(c *booleanCodec, src interface{}, dst interface{}, ve
 //@   prop C12
 //@   nilable n
 //@   assigns nothing
-//@   assumes twos: n != nil ==> !isnil(result) && same(win(result), twoswin(bigval(n)))
+//@   assumes twos: n != nil ==> !isnil(result) && same(win(result), twoswin(bigval(n))) && len(result) == twoslen(bigval(n)) && len(result) >= 1
 //@   assumes null: n == nil ==> isnil(result)
 //@ func readBigInt
 //@   prop C12
